@@ -168,3 +168,36 @@ contract(ENG, name='engine-lines', props=['C03', 'C04', 'C08', 'C14'], blocks_on
                               inv=[f'forall(lambda j: implies(0 <= j and j < {N}, isa({Lj}, "ConditionLine") or {Lj}._compilable))',
                                    f'{N} == ' + NCOMP.format(n='m'), 'm <= len(line_obs)', f'fresh({LST})',
                                    f'{LST} is not line_obs', 'line_obs is entry(line_obs)'])})
+
+
+# ---- the data blocks predefined by the ISA definition: one line per entry, with the entry's size, value and address ---------
+PDL = 'bespokeasm.assembler.line_object.predefined_data:PredefinedDataLine'
+contract(PDL + '.__init__', name='predefined-data-line', props=['C03', 'C04'],
+         ensures=['self._byte_length == byte_length', 'self._byte_value == byte_value', 'self._memzone is current_memzone',
+                  'self._address is None', 'len(self._bytes) == 0'],
+         modifies=[], allocates=True, no_frame_check=True)
+PITEM = "cfg_item(self._model._config['predefined']['data'], j)"
+PLINE = 'elems(predefined_line_obs)[j]'
+PRE_OK = (f'isa({PLINE}, "PredefinedDataLine") and {PLINE}._byte_length == cfg_int({PITEM}["size"])'
+          f' and {PLINE}._byte_value == cfg_int({PITEM}["value"]) and {PLINE}._address is not None'
+          f' and value_of({PLINE}._address) == cfg_int({PITEM}["address"])')
+contract(ENG, name='engine-predefined', props=['C03', 'C04'], blocks_only=True,
+         locals={'predefined_line_obs': 'list[LineObject]', 'predefines_lineid': 'LineIdentifier',
+                 'global_label_scope': 'LabelScope', 'memzone_manager': 'MemoryZoneManager'},
+         blocks={'predefined': dict(
+             where='loop[@for predefined_memory in self._model.predefined_data_blocks#0|0]', locals={},
+             requires=['len(predefined_line_obs) == 0', '"predefined" in self._model._config',
+                       '"data" in self._model._config["predefined"]', '"GLOBAL" in memzone_manager._zones',
+                       'scope_wf(global_label_scope)', 'isa(global_label_scope, "GlobalLabelScope")',
+                       # (addresses of predefined blocks are not negative: a configuration assumption, not checked by the model)
+                       "forall(lambda j: implies(0 <= j and j < cfg_len(self._model._config['predefined']['data']),"
+                       " cfg_int(cfg_item(self._model._config['predefined']['data'], j)['address']) >= 0))"],
+             may_raise={'SystemExit': 'True', 'KeyError': 'True', 'ValueError': 'True'},
+             ensures=["len(predefined_line_obs) == cfg_len(self._model._config['predefined']['data'])",
+                      f'forall(lambda j: implies(0 <= j and j < len(predefined_line_obs), {PRE_OK}))'],
+             modifies=['predefined_line_obs[*]', 'all-dicts:dict[str,LabelInfo]'], allocates=True)},
+         loops={'@for predefined_memory in self._model.predefined_data_blocks#0|0': dict(
+             idx='i', allocates=True, modifies=['predefined_line_obs[*]', 'all-dicts:dict[str,LabelInfo]'],
+             inv=["i <= cfg_len(self._model._config['predefined']['data'])", 'len(predefined_line_obs) == i',
+                  f'forall(lambda j: implies(0 <= j and j < i, {PRE_OK}))', 'scope_wf(global_label_scope)',
+                  'isa(global_label_scope, "GlobalLabelScope")', 'predefined_line_obs is entry(predefined_line_obs)'])})
